@@ -157,8 +157,13 @@ class TriggerContext:
         :return: the result of the expression, or the exception that was raised.
         """
         try:
-            # evaluate in the scope of the paused frame: its locals and the globals of the module it runs in
-            return eval(expression, getattr(self.__frame, 'f_globals', None), self.__frame.f_locals)
+            # evaluate in the scope of the paused frame: its locals and the globals of the module it runs in. They are
+            # given as ONE namespace (locals over globals): with eval(expression, globals, locals) the parts of an
+            # expression that open a scope of their own - generator expressions, lambdas - only see the globals, so
+            # 'any(v > limit for v in values)' fails with a NameError or silently picks up a global of the same name
+            namespace = dict(getattr(self.__frame, 'f_globals', None) or {})
+            namespace.update(self.__frame.f_locals)
+            return eval(expression, namespace)
         except BaseException as e:
             # without the traceback, it refers to our own frames (and through them to the application's frame)
             return e.with_traceback(None)
